@@ -143,6 +143,11 @@ static inline char sv_at(sv_t v, size_t i) {
   __CPROVER_assert(i < v.n, "std::string_view::operator[] index < size()");
   return v.p[i];
 }
+/* std::string_view::find_first_not_of(char) */
+static inline size_t sv_find_first_not_of__c(sv_t v, char c) {
+  for (size_t i = 0; i < v.n; i++) if (v.p[i] != c) return i;
+  return NPOS;
+}
 static inline char sv_front(sv_t v) { __CPROVER_assert(v.n > 0, "string_view::front on empty view"); return v.p[0]; }
 static inline char sv_back(sv_t v) { __CPROVER_assert(v.n > 0, "string_view::back on empty view"); return v.p[v.n - 1]; }
 static inline sv_t sv_substr__z(sv_t v, size_t pos) {
@@ -410,6 +415,8 @@ typedef struct { _Bool has; _Bool v; } opt_Bool_t;
 typedef struct { const char *in1; const char *in2; } mismatch_result_t;
 static inline mismatch_result_t sv_mismatch(sv_t a, sv_t b) { size_t i = 0; while (i < a.n && i < b.n && a.p[i] == b.p[i]) i++; return (mismatch_result_t){a.p + i, b.p + i}; }
 typedef struct { _Bool has; str_t v; } opt_str_t;
+/* tl::expected<std::string, ada::errors>: has == has_value() */
+typedef struct { _Bool has; str_t v; } result_str_t_t;
 typedef struct { _Bool has; uint16_t v; } opt_uint16_t;
 typedef struct { _Bool has; uint32_t v; } opt_uint32_t;
 typedef struct { size_t first; _Bool second; } pair_size_t_Bool_t;
